@@ -1,0 +1,126 @@
+//! Native recursion depth counters (compiled only with
+//! `RUSTFLAGS="--cfg marwood_verif"`).
+//!
+//! Add-only instrumentation for an external verification harness; with the cfg
+//! off none of it exists and the crate is unchanged. Nothing here touches
+//! interpreter state: the counters are thread-locals of this module.
+//!
+//! Each recursive pass of the interpreter that runs on the native stack has a
+//! *family* id. The functions of a family create a [`Guard`] as their first
+//! statement; the guard increments the family's current depth, records the
+//! maximum, and decrements the current depth again when it is dropped (normal
+//! return, `?` return or unwinding). A loop iteration therefore adds nothing, a
+//! (mutually) recursive call adds one.
+//!
+//! | family         | guarded functions                                          |
+//! |----------------|------------------------------------------------------------|
+//! | `PARSE`        | `parse::parse`, `parse_list`, `parse_vector`                |
+//! | `TRANSFORM`    | `Vm::transform`                                             |
+//! | `COMPILE`      | `Vm::compile_expression`, `Vm::compile_quasiquote`          |
+//! | `FREE_SYMBOLS` | `environment::find_free_symbols`                            |
+//! | `PUT_CELL`     | `Heap::put_cell`, `Heap::maybe_put_cell`                    |
+//! | `GET_AS_CELL`  | `Heap::get_as_cell`                                         |
+//! | `MARK`         | `Heap::mark`, `Heap::mark_vcell`                            |
+//! | `EQUAL`        | `Vm::equal`, `Vm::compare_pair`, `Vm::compare_vector`       |
+//! | `DISPLAY`      | `<Cell as Display>::fmt`                                    |
+//!
+//! The implicit `Drop` (and the derived `Clone`) of `Cell` recurse through
+//! `Box<Cell>` as well; they cannot be guarded without replacing the compiler
+//! generated code, which would change behaviour, so they are not instrumented.
+//!
+//! With `set_trace(step)` (step > 0) a line `DEPTH <family> <n>` is written to
+//! stderr whenever a family's maximum reaches a new multiple of `step`; a
+//! supervisor that sees the process die of native stack exhaustion can read
+//! from the last such line which pass was recursing.
+use std::cell::Cell as StdCell;
+
+pub const PARSE: usize = 0;
+pub const TRANSFORM: usize = 1;
+pub const COMPILE: usize = 2;
+pub const FREE_SYMBOLS: usize = 3;
+pub const PUT_CELL: usize = 4;
+pub const GET_AS_CELL: usize = 5;
+pub const MARK: usize = 6;
+pub const EQUAL: usize = 7;
+pub const DISPLAY: usize = 8;
+pub const FAMILIES: usize = 9;
+
+pub const NAMES: [&str; FAMILIES] = [
+    "parse",
+    "transform",
+    "compile",
+    "free_symbols",
+    "put_cell",
+    "get_as_cell",
+    "mark",
+    "equal",
+    "display",
+];
+
+thread_local! {
+    static CUR: [StdCell<usize>; FAMILIES] = Default::default();
+    static MAX: [StdCell<usize>; FAMILIES] = Default::default();
+    static TRACE_STEP: StdCell<usize> = StdCell::new(0);
+}
+
+/// Live for the duration of one call of a guarded function.
+pub struct Guard(usize);
+
+impl Guard {
+    #[inline]
+    pub fn enter(family: usize) -> Guard {
+        let depth = CUR.with(|c| {
+            let d = c[family].get() + 1;
+            c[family].set(d);
+            d
+        });
+        let new_max = MAX.with(|m| {
+            if depth > m[family].get() {
+                m[family].set(depth);
+                true
+            } else {
+                false
+            }
+        });
+        if new_max {
+            let step = TRACE_STEP.with(|t| t.get());
+            if step > 0 && depth % step == 0 {
+                eprintln!("DEPTH {} {}", NAMES[family], depth);
+            }
+        }
+        Guard(family)
+    }
+}
+
+impl Drop for Guard {
+    #[inline]
+    fn drop(&mut self) {
+        CUR.with(|c| c[self.0].set(c[self.0].get().saturating_sub(1)));
+    }
+}
+
+/// Forget the maxima of this thread (a maximum restarts at the current depth).
+pub fn reset() {
+    CUR.with(|c| MAX.with(|m| (0..FAMILIES).for_each(|i| m[i].set(c[i].get()))));
+}
+
+/// Largest depth the family reached on this thread since the last `reset`.
+pub fn max_depth(family: usize) -> usize {
+    MAX.with(|m| m[family].get())
+}
+
+/// All maxima, indexed by family id.
+pub fn max_depths() -> [usize; FAMILIES] {
+    let mut out = [0; FAMILIES];
+    MAX.with(|m| {
+        for (i, x) in m.iter().enumerate() {
+            out[i] = x.get();
+        }
+    });
+    out
+}
+
+/// `step > 0`: report every new maximum that is a multiple of `step` on stderr.
+pub fn set_trace(step: usize) {
+    TRACE_STEP.with(|t| t.set(step));
+}
